@@ -71,7 +71,7 @@ func checkC07(c *Ctx) {
 	lib := libFiles()
 	all := map[string]data.Value{"x": data.Int(2), "y": data.Int(4), "c": data.Bool(true), "l": data.List{data.Int(3)}, "m": data.Map{"x": data.String("mx")}, "extra": data.Int(1), "n": data.Int(1)}
 
-	one := func(body []*Cmd, params []Param, variant int, mut string, both bool) {
+	one := func(body []*Cmd, params []Param, variant int, mut string, both int) {
 		if !c.Mine() {
 			return
 		}
@@ -201,21 +201,26 @@ func checkC07(c *Ctx) {
 		params := paramsFor(body)
 		// (0) the body as generated: valid or naturally rule-violating (use after block end,
 		//     use before let, loop variable outside its loop, shadowed params ...)
-		one(body, params, variant, "none", false)
+		one(body, params, variant, "none", 0)
 		// mutations at every applicable site; applied to every 3rd body in the quick tier to bound the cost
 		if !c.Thorough() && seenBodies%6 != 0 {
 			return
 		}
 		// (1) unused param
-		one(body, append(append([]Param{}, params...), Param{Name: "extra"}), variant, "add-unused-param", false)
+		one(body, append(append([]Param{}, params...), Param{Name: "extra"}), variant, "add-unused-param", 0)
 		// (2) both soydoc and header params
 		if len(params) > 0 {
-			one(body, params, variant, "both-decls", true)
+			one(body, params, variant, "both-decls", 1)
+		}
+		if len(params) > 1 {
+			// distinct names in the two mechanisms
+			one(body, params, variant, "both-decls-split-first", 2)
+			one(body, params, variant, "both-decls-split-last", 3)
 		}
 		// (3) drop each param declaration in turn (references become undeclared, or were shadowed anyway)
 		for i := range params {
 			p2 := append(append([]Param{}, params[:i]...), params[i+1:]...)
-			one(body, p2, variant, "drop-param-"+params[i].Name, false)
+			one(body, p2, variant, "drop-param-"+params[i].Name, 0)
 		}
 		// site mutations
 		nsites := 0
@@ -281,7 +286,7 @@ func checkC07(c *Ctx) {
 					}
 				})
 				if applied {
-					one(b2, params, variant, fmt.Sprintf("%s@%d", kind, site), false)
+					one(b2, params, variant, fmt.Sprintf("%s@%d", kind, site), 0)
 				}
 			}
 		}
